@@ -137,23 +137,59 @@ Theorem C08_x25519_handler :
 Proof. exact x25519_handler. Qed.
 Print Assumptions C08_x25519_handler.
 
-(* NIST ECDH handlers: a point the library validation refuses ends the handler with nothing done.
-   PARTIAL: the validation itself (from_encoded_point) is the cryptography library's; e_point_ok is
-   an oracle here, instantiated by the spec ec_accept in the correspondence run only. *)
-Theorem C08_ec_handler_partial :
-  forall en, e_point_ok en = false ->
-    run_steps steps_ecdh_init en = ([], Raise ValueErr) /\
-    run_steps steps_ecdh_reply en = ([], Raise ValueErr).
-Proof. exact ec_handler. Qed.
-Print Assumptions C08_ec_handler_partial.
+(* NIST ECDH handlers (KexNistp256/384/521 _parse_kexecdh_init / _parse_kexecdh_reply; the step lists
+   and the data flow "K = self.P.exchange(ec.ECDH(), <the point decoded from the received bytes>)" are
+   pinned by gen/c08.py).  paramiko performs NO check of its own on the peer's point: it relies
+   entirely on the library.  The statement therefore quantifies over an ARBITRARY library -
+   `decode` = from_encoded_point (None = it raised), `exch` = exchange (None = it raised) - under the
+   one premise the handler needs: the library returns a point only for a valid SEC1 encoding
+   (ec_valid: uncompressed with in-range coordinates satisfying the curve equation, or compressed with
+   an in-range abscissa for which a point exists; C08_ec_valid_shape).  Then an invalid / off-curve /
+   identity / wrong-length encoding ends the handler with ValueError before any transport call, and
+   whenever a handler makes any transport call at all (_set_K_H, NEWKEYS activation) the encoding was
+   valid, decoding and exchange succeeded, and the handler ran to the end.  The premise is checked on
+   the live `cryptography` library every run (harness: grid of bad encodings on the three curves). *)
+Theorem C08_ec_handler :
+  forall (c : Z * Z * Z * Z) (point : Type)
+         (decode : list Z -> option point) (exch : point -> option (list Z)),
+  (forall bs P, decode bs = Some P -> ec_valid c bs) ->
+  forall bs h, In h [steps_ecdh_init; steps_ecdh_reply] ->
+    (~ ec_valid c bs -> run_steps h (ec_env decode exch bs) = ([], Raise ValueErr)) /\
+    (forall tr res, run_steps h (ec_env decode exch bs) = (tr, res) -> tr <> [] ->
+       res = Ok tt /\ In EvSetKH tr /\ In EvActivate tr /\
+       ec_valid c bs /\ exists P s, decode bs = Some P /\ exch P = Some s).
+Proof. exact ec_handler_full. Qed.
+Print Assumptions C08_ec_handler.
 
-(* the larger fragment: IF the library's validation agrees with the Gallina SEC1 spec ec_accept on the
-   received encoding (the premise e_point_ok en = ec_accept c sq pt - compared on generated points
-   every run, not proved) and its ECDH on a validated point succeeds, then the handlers accept
-   exactly the encodings the spec accepts, refuse the empty string and the point at infinity, and
-   do nothing at all on a refused one.  Together with C08_ec_spec_on_curve: an accepted
-   uncompressed point is on the curve.  (Full statement without the premise is not provable here:
-   from_encoded_point is library code.) *)
+(* what a valid encoding is, completely: so the empty string, the identity 00, hybrid / unknown
+   prefixes, wrong lengths, out-of-range coordinates, points of another curve and off-curve points
+   are all invalid *)
+Theorem C08_ec_valid_shape :
+  forall p a b flen t r,
+  ec_valid (p, a, b, flen) (t :: r) ->
+  let n := Z.to_nat (Z.min flen 128) in
+  (t = 4 /\ length r = (2 * n)%nat /\
+   0 <= be_decode (firstn n r) < p /\ 0 <= be_decode (skipn n r) < p /\
+   (be_decode (skipn n r) * be_decode (skipn n r)) mod p =
+   (be_decode (firstn n r) * be_decode (firstn n r) * be_decode (firstn n r) + a * be_decode (firstn n r) + b) mod p) \/
+  ((t = 2 \/ t = 3) /\ length r = n /\ 0 <= be_decode r < p /\ has_root (p, a, b, flen) (be_decode r)).
+Proof. exact ec_valid_shape. Qed.
+Print Assumptions C08_ec_valid_shape.
+
+Theorem C08_ec_valid_degenerate : forall c, ~ ec_valid c [] /\ ~ ec_valid c [0].
+Proof. exact ec_valid_degenerate. Qed.
+Print Assumptions C08_ec_valid_degenerate.
+
+(* the exchange hash of both handlers is over V_C V_S I_C I_S K_S Q_C Q_S K in this order (RFC 5656
+   section 4), the peer's Q being the very bytes that were decoded *)
+Theorem C08_ec_hash_order :
+  ecdh_hash_order_init = [1; 2; 3; 4; 5; 6; 7; 8] /\ ecdh_hash_order_reply = [1; 2; 3; 4; 5; 6; 7; 8].
+Proof. exact ec_hash_order. Qed.
+Print Assumptions C08_ec_hash_order.
+
+(* the instantiation used by the correspondence run: IF the library's validation agrees with the
+   executable spec ec_accept on the received encoding (sq = residuosity bit for compressed forms) and
+   its ECDH on a validated point succeeds, the handlers accept exactly the encodings the spec accepts *)
 Theorem C08_ec_handler_under_spec :
   forall en c sq pt,
   e_point_ok en = ec_accept c sq pt -> e_exch_ok en = true ->
@@ -208,4 +244,26 @@ Proof.
   repeat split; try reflexivity.
   - unfold dh_sites. rewrite in_app_iff. cbn [In]. tauto.
   - unfold all_handlers. cbn [In]. tauto.
+Qed.
+
+(* non-vacuity of C08_ec_handler: the premise is met by a library (here: one that decodes exactly the
+   valid uncompressed encodings), a valid encoding exists (the P-256 base point) and is accepted by
+   the handler with the keys set, and a neighbouring off-curve encoding is invalid *)
+Example C08_example_ec :
+  let Gx := 0x6B17D1F2E12C4247F8BCE6E563A440F277037D812DEB33A0F4A13945D898C296 in
+  let Gy := 0x4FE342E2FE1A7F9B8EE7EB4A7C0F9E162BCE33576B315ECECBB6406837BF51F5 in
+  exists c, nth_error curves 0 = Some c /\
+    let decode := fun bs => if ec_accept c false bs then Some bs else None in
+    let exch := fun (_ : list Z) => Some [1] in
+    (forall bs P, decode bs = Some P -> ec_valid c bs) /\
+    ec_valid c (4 :: be_encode 32 Gx ++ be_encode 32 Gy) /\
+    run_steps steps_ecdh_init (ec_env decode exch (4 :: be_encode 32 Gx ++ be_encode 32 Gy))
+      = ([EvSetKH; EvSend; EvActivate], Ok tt) /\
+    ~ ec_valid c (4 :: be_encode 32 Gx ++ be_encode 32 (Gy + 1)).
+Proof.
+  intros Gx Gy. eexists. split; [reflexivity|]. cbv zeta. split; [|split; [|split]].
+  - intros bs P H. left. destruct (ec_accept _ false bs); [reflexivity|discriminate].
+  - left. vm_compute. reflexivity.
+  - vm_compute. reflexivity.
+  - intros [H|[H _]]; vm_compute in H; discriminate.
 Qed.
